@@ -61,15 +61,34 @@ def main(argv=None):
         return 2
 
 
+class _SafeOut:
+    """stdout that survives a closed pipe (`| head`): the verdict is the exit code."""
+
+    def __init__(self, f):
+        self.f, self.dead = f, False
+
+    def write(self, s):
+        if not self.dead:
+            try:
+                self.f.write(s)
+            except BrokenPipeError:
+                self.dead = True
+        return len(s)
+
+    def flush(self):
+        if not self.dead:
+            try:
+                self.f.flush()
+            except BrokenPipeError:
+                self.dead = True
+
+
 if __name__ == "__main__":
+    sys.stdout = _SafeOut(sys.stdout)
+    rc = main()
+    sys.stdout.flush()
     try:
-        rc = main()
-        sys.stdout.flush()
-    except BrokenPipeError:
-        # reader went away (e.g. `| head`): keep the verdict, drop the rest of the output
-        try:
-            sys.stdout = open(os.devnull, "w")
-        except Exception:
-            pass
-        rc = 0
-    sys.exit(rc)
+        sys.stderr.close()
+    except Exception:
+        pass
+    os._exit(rc)
